@@ -16,7 +16,8 @@ def is_url(value: str) -> None:
 
 
 def is_int(value: int) -> None:
-    if not isinstance(value, int):
+    # JSON true and false are not integers (bool is a subclass of int)
+    if not isinstance(value, int) or isinstance(value, bool):
         raise ValueError("must be an int")
 
 
